@@ -89,6 +89,12 @@ def hx(v):
         return None
     if isinstance(v, (bytes, bytearray)):
         return bytes(v)
+    if v.startswith('rep:'):
+        # 'rep:<hex>:<n>': the byte pattern repeated to n bytes (keeps
+        # plans with megabyte values small)
+        _, pat, n = v.split(':')
+        pat = bytes.fromhex(pat)
+        return (pat * (int(n) // len(pat) + 1))[:int(n)]
     return bytes.fromhex(v)
 
 
